@@ -26,6 +26,7 @@ import MbVerif.Proofs.SimNoMachines
 import MbVerif.Proofs.SimWindow
 import MbVerif.Proofs.SimOnlyPackets
 import MbVerif.Proofs.SimMatch
+import MbVerif.Proofs.SimRaw
 import MbVerif.Props.C15
 import MbVerif.Spec.C14
 
@@ -162,6 +163,34 @@ theorem C14_identity_partial {σ : Type} (ρ : Oracle σ) (budget : Nat) (trace 
     C15.C15_causality_matching ρ budget [] [] trace delay a orc hd hoc hon hok⟩
   intro c
   exact (C15.C15_conservation_trace ρ budget [] [] trace delay a orc hoc hon hok c).2 hstop
+
+/-! ### raw input traces: padding lines `sp` / `rp` are not packets of the trace -/
+
+/-- only plain packets, for raw traces with all direction tokens -/
+theorem C14_only_packets_raw {σ : Type} (ρ : Oracle σ) (budget : Nat) (raw : List RawLine) (delay : Nat) (a : Args) (orc : σ) :
+    onlyPackets (simAdvanced ρ budget [] [] (parseTraceRaw raw delay) a orc).trace = true := by
+  rw [parseTraceRaw_eq]
+  exact C14_only_packets ρ budget (normalLines raw) delay a orc
+
+/-- the composed partial identity for raw traces: the expected trace is built from the normal
+    lines only -/
+theorem C14_identity_partial_raw {σ : Type} (ρ : Oracle σ) (budget : Nat) (raw : List RawLine) (delay : Nat) (a : Args)
+    (orc : σ) (hd : a.network.delay = delay) (hoc : a.onlyClientEvents = false) (hon : a.onlyNetworkActivity = false)
+    (hstop : (simAdvanced ρ budget [] [] (parseTraceRaw raw delay) a orc).stop = .noNormal) :
+    let tr := (simAdvanced ρ budget [] [] (parseTraceRaw raw delay) a orc).trace
+    onlyPackets tr = true ∧ tr.Pairwise (fun x y => x.time ≤ y.time) ∧
+    (∀ c, C15.normalSentCount tr c = C15.share (normalLines raw) c) ∧ C15.causality delay tr = true := by
+  rw [parseTraceRaw_eq] at hstop ⊢
+  exact C14_identity_partial ρ budget (normalLines raw) delay a orc hd hoc hon hstop
+
+/-- window covering for raw traces: the limit is derived from the normal lines only -/
+theorem C14_S1_parsed_limit_never_exceeded_raw (raw : List RawLine) (delay : Nat) (shift : Int)
+    (hs : Asc (sTimes (normalLines raw))) (hr : Asc (rTimes (normalLines raw))) :
+    ∃ lim, (parseTraceRaw raw delay).maxPps = some lim ∧
+      (∀ c ∈ feedCounts ⟨Gen.SIM_BOTTLENECK_WINDOW_NS, []⟩ (sTimes (normalLines raw)), c ≤ lim) ∧
+      (∀ c ∈ feedCounts ⟨Gen.SIM_BOTTLENECK_WINDOW_NS, []⟩ ((rTimes (normalLines raw)).map (· + shift)), c ≤ lim) := by
+  rw [parseTraceRaw_eq]
+  exact C14_S1_parsed_limit_never_exceeded (normalLines raw) delay shift hs hr
 
 /-- **S2, second hop** (exact when the bottleneck adds nothing): a normal TunnelSent at the clock
     queues one normal TunnelRecv for the other side exactly one configured delay later. -/
